@@ -10,6 +10,10 @@
 #endif
 #define SCEN_DC (SCEN >= 5)
 #include "parsec/class/parsec_future.c"
+#if SCEN >= 7
+#include "vp_objstub.h"
+#include "parsec/class/list.h"
+#endif
 #if SCEN_DC
 #include "parsec/class/parsec_datacopy_future.c"
 #endif
@@ -43,6 +47,9 @@ static void dc_fulfill(parsec_base_future_t *f, ...)
     if(sync_mode) parsec_datacopy_future_set(f, &d1);
 }
 #endif
+#if SCEN == 7
+static int match(parsec_base_future_t *f, void *have, void *want); static int spec_root;
+#endif
 void setup(void)
 {
     parsec_base_future_construct(&F);
@@ -54,6 +61,13 @@ void setup(void)
     /* = parsec_datacopy_future_init(&DF, dc_fulfill, NULL, match, NULL, NULL) */
     DF.super.status = PARSEC_DATA_FUTURE_STATUS_INIT; DF.super.cb_fulfill = dc_fulfill; DF.nested_enable = 1; DF.nested_futures = NULL;
     sync_mode = IN_BOOL();
+#endif
+#if SCEN == 7
+    DF.cb_match = match; DF.cb_match_data_in = &spec_root;
+    /* the list of nested futures and the list-item class exist already (created by an earlier request): the object
+     * system's lazy class initialisation is not the subject here */
+    DF.nested_futures = PARSEC_OBJ_NEW(parsec_list_t);
+    { parsec_list_item_t dummy; PARSEC_OBJ_CONSTRUCT(&dummy, parsec_list_item_t); }
 #endif
 #if SCEN == 3
     CF.count = 2;                                                        /* = parsec_countable_future_init(&CF, cb, 2) */
@@ -73,6 +87,25 @@ void thread1(void){ if(parsec_base_future_is_ready(&F)) { seen_ready = 1; seen_d
 void thread0(void){ parsec_countable_future_set((parsec_base_future_t*)&CF, &d1); __sync_fetch_and_add(&nsets_done, 1); }
 void thread1(void){ parsec_countable_future_set((parsec_base_future_t*)&CF, &d2); __sync_fetch_and_add(&nsets_done, 1); }
 void thread2(void){ if(parsec_base_future_is_ready((parsec_base_future_t*)&CF)) { seen_ready = 1; seen_count = CF.count; } }
+#elif SCEN == 7 /* datacopy future, nested shapes: two threads request the same not-yet-existing shape concurrently.
+                  The variadic prologue of get_or_trigger is replaced by fixed parameters through an overlay regex
+                  (spec.py patches=), the body is the real code. */
+static parsec_datacopy_future_t N1, N2; static int npool, nested_created, spec_want = 1, nested_fulfil;
+static int n_copy;                       /* the converted copy */
+static int match(parsec_base_future_t *f, void *have, void *want) { (void)f; return *(int*)have == *(int*)want; }
+static void nested_fulfill(parsec_base_future_t *f, ...) { __sync_fetch_and_add(&nested_fulfil, 1); parsec_datacopy_future_set(f, &n_copy); }
+static void setup_nested(parsec_base_future_t **out, void *parent, void *want)
+{
+    int k = __sync_fetch_and_add(&npool, 1);
+    parsec_datacopy_future_t *n = (k == 0) ? &N1 : &N2;
+    parsec_datacopy_future_construct((parsec_base_future_t*)n);
+    n->super.status = PARSEC_DATA_FUTURE_STATUS_INIT; n->super.cb_fulfill = nested_fulfill; n->nested_enable = 1;
+    n->cb_match = match; n->cb_match_data_in = want; n->nested_futures = NULL;
+    __sync_fetch_and_add(&nested_created, 1); (void)parent;
+    *out = (parsec_base_future_t*)n;
+}
+void thread0(void){ r0 = parsec_datacopy_future_get_or_trigger((parsec_base_future_t*)&DF, setup_nested, &spec_want, NULL, NULL); }
+void thread1(void){ r1 = parsec_datacopy_future_get_or_trigger((parsec_base_future_t*)&DF, setup_nested, &spec_want, NULL, NULL); }
 #elif SCEN == 5 /* datacopy future: two concurrent triggers + (async mode) a late completion */
 void thread0(void){ r0 = parsec_datacopy_future_get_or_trigger_internal((parsec_base_future_t*)&DF, NULL, NULL); }
 void thread1(void){ r1 = parsec_datacopy_future_get_or_trigger_internal((parsec_base_future_t*)&DF, NULL, NULL); }
@@ -111,6 +144,13 @@ void check(void)
     VASSERTM(!seen_ready || seen_count == 0, "ready observed only after count sets");
     if(seen_ready) VWITNESS("poller saw ready");
     if(!seen_ready) VWITNESS("poller too early");
+#elif SCEN == 7
+    VASSERTM(nested_created == 1 && nested_fulfil == 1, "one nested future and one fulfilment per requested shape under concurrent get_or_trigger");
+    VASSERTM(r0 == (void*)&n_copy && r1 == (void*)&n_copy, "both requesters get the same converted copy");
+    VASSERTM(dc_cb_count == 0, "the root future (other shape) is not triggered");
+    VASSERTM(N1.nested_enable == 0, "nested futures cannot nest further");
+    VASSERTM(DF.super.future_lock == 0, "root lock released");
+    VWITNESS("both requests served");
 #elif SCEN == 5
     VASSERTM(dc_cb_count == 1, "fulfilment of a data-copy future triggered exactly once under concurrent get_or_trigger");
     VASSERTM((r0 == NULL || r0 == &d1) && (r1 == NULL || r1 == &d1) && (r2 == NULL || r2 == &d1), "a non-NULL result is the delivered copy");
